@@ -14,6 +14,8 @@ namespace Pandora.Spec.C14
 inductive RunClass where
   | nil | canceled | limit | passes | noammo | other | noreturn | construct
   | fatal      -- the process running the provider died of a fatal runtime error (e.g. concurrent map read and map write)
+  | canceledW  -- round 6: errors.Is finds context.Canceled in what `Run` returned, but core/engine does not recognise it
+               -- as the context's own error (errutil.IsCtxError is false: wrapped with %w) — the engine reports a FAILED provider
   deriving DecidableEq, Repr, Inhabited
 
 inductive EndClass where
@@ -23,7 +25,7 @@ inductive EndClass where
 def RunClass.name : RunClass → String
   | .nil => "nil" | .canceled => "canceled" | .limit => "limit" | .passes => "passes"
   | .noammo => "noammo" | .other => "other" | .noreturn => "noreturn" | .construct => "construct"
-  | .fatal => "fatal"
+  | .fatal => "fatal" | .canceledW => "canceledw"
 
 def EndClass.name : EndClass → String
   | .closed => "closed" | .blocked => "blocked" | .spinning => "spinning" | .norun => "norun"
@@ -188,5 +190,26 @@ def judgeH (c : Cell) (ehdr : List String) (o : ObsH) : String :=
     else if !hdEquivOk o then s!"fail:equiv-headers:streaming delivers requests with [{o.shd}], preload with [{o.phd}]"
     else if !hdOk ehdr o then s!"fail:headers:delivered requests carry [{o.shd}], the source declares [{renderHd ehdr o.base.s.seq}]"
     else "ok"
+
+/-! ## round 6: a cancellation that lands while the decoder is inside `Scan` (`rc=K`: inside the K-th Read of the file)
+
+Where exactly the provider notices it is a race (which check sees it first, whether the pending send still goes
+through), so the delivered sequences may legitimately differ in length; what the property asks is that each side has
+delivered a PREFIX of what the cell delivers, requests intact, and that both runs END THE SAME WAY — as core/engine
+sees it (`canceled` = recognised as the context's own error, `canceledw` = not). -/
+
+def isPrefixOf (a b : List Nat) : Bool := a == b.take a.length
+
+def judgeMid (c : Cell) (ehdr : List String) (o : ObsH) : String :=
+  if o.base.s.run == .fatal then "fail:fatal:the streaming provider killed its process (fatal runtime error)"
+  else if o.base.p.run == .fatal then "fail:fatal:the preloaded provider killed its process (fatal runtime error)"
+  else if !tagsOk o.base then "fail:tags:a delivered ammo does not carry the tag of its entry"
+  else if !(isPrefixOf o.base.s.seq (expectedSeq c) && isPrefixOf o.base.p.seq (expectedSeq c)) then
+    s!"fail:chosen:delivered {o.base.s.seq} / {o.base.p.seq}, not a prefix of {expectedSeq c}"
+  else if !endEquivOk o.base then
+    s!"fail:equiv-end:cancelled inside Scan: streaming ends [run={o.base.s.runToken} end={o.base.s.end_.name} closed={o.base.s.closedToken}], preload [run={o.base.p.runToken} end={o.base.p.end_.name} closed={o.base.p.closedToken}]"
+  else if !o.reqOk then "fail:request:a delivered request does not have the method / body of its entry"
+  else if !hdOk ehdr o then s!"fail:headers:delivered requests carry [{o.shd}] / [{o.phd}], the source declares [{renderHd ehdr o.base.s.seq}]"
+  else "ok"
 
 end Pandora.Spec.C14
